@@ -68,7 +68,7 @@ Definition cyc {A} (l : list A) (d : A) : nat -> A := fun i => nth (i mod List.l
 (* ------------------------------------------------------------------ operators *)
 Section Ops.
 Variable A : Type.
-(* oracles: operator.<func>(a, b), operator.<func>(a) and abs(a), getattr(a, name), a(*args, **kwargs) *)
+(* oracles: operator.<func>(a, b), operator.<func>(a) and abs(a), getattr(a, name), a applied to args and kwargs *)
 Variable opsem : string -> A -> A -> A.
 Variable unsem : string -> A -> A.
 Variable attrsem : string -> A -> A.
@@ -163,7 +163,7 @@ Inductive sexpr :=
 | BinS (dname : string) (e : sexpr) (c : A)          (* ... o a non-iterable *)
 | AbsE (e : sexpr)                                   (* abs(e) *)
 | AttrE (name : string) (e : sexpr)                  (* e.name through Stream.__getattr__ *)
-| CallE (e : sexpr) (args : list A) (kw : list (string * A)).   (* e(*args, **kw) *)
+| CallE (e : sexpr) (args : list A) (kw : list (string * A)).   (* e called with args and kw *)
 
 Definition dres_stream (d : dres) : option (lseq A) :=
   match d with DStream s => Some s | _ => None end.
@@ -240,7 +240,7 @@ Inductive pyval :=
 | PStr (a : A)                          (* Iterable, but an instance of STR_TYPES *)
 | PCont (k : ckind) (vals : lseq A).    (* Iterable: what iterating it yields *)
 
-(* oracle for the decorated function: func(*args, **kwargs) *)
+(* oracle for the decorated function: func applied to args and kwargs *)
 Variable f : list pyval -> list (string * pyval) -> A.
 
 Inductive ewres := EVal (v : pyval) | ERaise (e : string).
